@@ -18,6 +18,8 @@ BUCKETS = ["b0", "b1", "bü-2"]
 # ids that SQL LIKE would confuse (case twins, "_" as a wildcard) and that contain each other
 BUCKETS_LIKE = ["aw_w", "aw-w", "AW_W", "aw_w%"]
 BUCKETS_COLS = ["id", "name", "client"]  # bucket ids spelled like columns of the buckets table
+# ids that are the same text for a reader and different strings: composed / decomposed accents (NFC / NFD), a ligature (NFKC)
+BUCKETS_NFC = ["aw-watcher_Jos\u00e9", "aw-watcher_Jose\u0301", "aw-watcher_\ufb01le"]
 
 
 def mk_meta(rng, b, with_name=None):
@@ -61,7 +63,7 @@ class HistGen:
     def __init__(self, rng, nbuckets=2, grid=8):
         self.rng = rng
         r_b = rng.random()
-        self.buckets = (BUCKETS_LIKE if r_b < 0.15 else BUCKETS_COLS if r_b < 0.25 else BUCKETS)[:nbuckets]
+        self.buckets = (BUCKETS_LIKE if r_b < 0.15 else BUCKETS_COLS if r_b < 0.25 else BUCKETS_NFC if r_b < 0.35 else BUCKETS)[:nbuckets]
         self.grid = grid
         r0 = rng.random()
         self.base = EPOCH_BASE if r0 < 0.12 else FUTURE_BASE if r0 < 0.18 else rng.choice(FAR_BASES) if r0 < 0.24 else T0
